@@ -34,6 +34,8 @@ def toyEnv : Env Nat Nat Nat where
   sub _ t := .ok t
   validate d := if d = 1 then .ok 7 else .raise .validation
   coerce d := .ok (d, [])
+  patterns := patternIds
+  repairs := repairIds
 
 /-- ` {} ` (clean JSON with surrounding blanks), `x{}` (JSON inside prose), `[]` (JSON the schema rejects) -/
 def rawClean : Text := [32, 123, 125, 32]
@@ -71,17 +73,17 @@ theorem c11_valid_is_validated_enhanced (env : Env J S C) (cfg : Cfg) (st st' : 
     refine ⟨s, by simp [hstrs], d, v, ?_, hval, hder, ?_, ?_, (hend.append_left tpre).getLast?⟩
     · cases s <;> simp only [SuccessShape] at hshape
       · rw [hshape]
-      · obtain ⟨i, _, hs⟩ := hshape; rw [hs]
+      · obtain ⟨i, hs⟩ := hshape; rw [hs]
       · obtain ⟨cs, hs⟩ := hshape; rw [hs]
       · obtain ⟨ns, hs⟩ := hshape; rw [hs]
     · cases s <;> simp only [SuccessShape] at hshape
       · rw [hshape]
-      · obtain ⟨i, _, hs⟩ := hshape; rw [hs]
+      · obtain ⟨i, hs⟩ := hshape; rw [hs]
       · obtain ⟨cs, hs⟩ := hshape; rw [hs]
       · obtain ⟨ns, hs⟩ := hshape; rw [hs]
     · cases s <;> simp only [SuccessShape] at hshape
       · rw [hshape]; rfl
-      · obtain ⟨i, _, hs⟩ := hshape; rw [hs]; rfl
+      · obtain ⟨i, hs⟩ := hshape; rw [hs]; rfl
       · obtain ⟨cs, hs⟩ := hshape; rw [hs]; rfl
       · obtain ⟨ns, hs⟩ := hshape; rw [hs]; rfl
 
@@ -105,7 +107,7 @@ theorem c11_valid_is_validated (env : Env J S C) (cfg : Cfg) (st st' : Stats) (r
     refine ⟨s, by simp [hstrs], d, v, ?_, hval, hder, rfl, (hend.append_left tpre).getLast?⟩
     cases s <;> simp only [SuccessShape] at hshape
     · rw [hshape]
-    · obtain ⟨i, _, hs⟩ := hshape; rw [hs]
+    · obtain ⟨i, hs⟩ := hshape; rw [hs]
     · obtain ⟨cs, hs⟩ := hshape; rw [hs]
     · obtain ⟨ns, hs⟩ := hshape; rw [hs]
 
@@ -264,7 +266,7 @@ theorem c11_confidence_unit_and_one_only_strict (env : Env J S C) (cfg : Cfg) (s
     rw [hx] at h; simp at h; obtain ⟨_, rfl⟩ := h
     cases s <;> simp only [SuccessShape] at hshape
     · rw [hshape]; simp; grind
-    · obtain ⟨i, _, hs⟩ := hshape; rw [hs]; simp; grind
+    · obtain ⟨i, hs⟩ := hshape; rw [hs]; simp; grind
     · obtain ⟨cs, hs⟩ := hshape
       have hb := lenientConfidence_bounds cs.length
       rw [hs]; simp; grind
@@ -318,6 +320,67 @@ theorem c11_stats_step (env : Env J S C) (cfg : Cfg) (st st' : Stats) (raw : Tex
     exact ⟨rfl, by simp, fun s => bumpAll_ge _ _ s⟩
   · rw [hx] at h; simp at h; obtain ⟨rfl, rfl⟩ := h
     exact ⟨rfl, by simp [hxv], fun s => bumpAll_ge _ _ s⟩
+
+/-! ## Every report the API hands out is well formed -/
+
+/-- valid ⇒ a structure and no error trace; invalid ⇒ no structure and an error trace -/
+def Folded.WellFormed (p : Folded S) : Prop :=
+  (p.valid = true → p.struct.isSome ∧ p.err = none) ∧ (p.valid = false → p.struct = none ∧ p.err.isSome)
+
+/-- Every report handed out by `fold`, by `fold_enhanced` (its validity / structure / trace fields), and by any chain
+    of `FoldedProtein.map` calls on a `fold` report — with arbitrary mapped functions that return or raise any
+    exception class — is well formed: valid ⇒ a structure is present and no error trace is set; invalid ⇒ no
+    structure and an error trace.  `map` calls the function exactly on valid reports, keeps the raw text, and a
+    raising function yields an invalid report. -/
+theorem c11_every_report_is_well_formed (env : Env J S C) (cfg : Cfg) (st : Stats) (raw : Text)
+    (call : List Strategy) :
+    (∀ st' p, (fold env cfg st raw call).res = .ok (st', p) →
+      ∀ fs : List (S → Res S), (fs.foldl (fun q f => q.map f) p).WellFormed ∧ (fs.foldl (fun q f => q.map f) p).raw = raw) ∧
+    (∀ st' x, (foldX env cfg st raw call).res = .ok (st', x) →
+      (x.valid = true → x.struct.isSome ∧ x.err = none) ∧ (x.valid = false → x.struct = none ∧ x.err.isSome)) := by
+  have hmap : ∀ (f : S → Res S) (q : Folded S), q.WellFormed → (q.map f).WellFormed ∧ (q.map f).raw = q.raw := by
+    intro f q hq
+    unfold Folded.map
+    split
+    · split
+      · exact ⟨⟨fun _ => ⟨rfl, rfl⟩, fun h => (by cases h)⟩, rfl⟩
+      · exact ⟨⟨fun h => (by cases h), fun _ => ⟨rfl, rfl⟩⟩, rfl⟩
+    · exact ⟨hq, rfl⟩
+  have hchain : ∀ (fs : List (S → Res S)) (q : Folded S), q.WellFormed →
+      (fs.foldl (fun q f => q.map f) q).WellFormed ∧ (fs.foldl (fun q f => q.map f) q).raw = q.raw := by
+    intro fs
+    induction fs with
+    | nil => intro q hq; exact ⟨hq, rfl⟩
+    | cons f fs ih =>
+      intro q hq
+      obtain ⟨h1, h2⟩ := hmap f q hq
+      obtain ⟨h3, h4⟩ := ih (q.map f) h1
+      exact ⟨h3, by simpa [h2] using h4⟩
+  constructor
+  · intro st' p h fs
+    have hwf : p.WellFormed ∧ p.raw = raw := by
+      by_cases hv : p.valid = true
+      · obtain ⟨_, _, _, v, hs, _, _, he, _⟩ := c11_valid_is_validated env cfg st st' raw call p h hv
+        exact ⟨⟨fun _ => ⟨by simp [hs], he⟩, fun h' => (by rw [hv] at h'; cases h')⟩,
+          (c11_raw_is_echoed env cfg st raw call).1 st' p h⟩
+      · have hv' : p.valid = false := by simpa using hv
+        obtain ⟨hs, he⟩ := c11_invalid_has_no_structure_and_a_trace env cfg st st' raw call p h hv'
+        exact ⟨⟨fun h' => (by rw [hv'] at h'; cases h'), fun _ => ⟨hs, by simp [he]⟩⟩,
+          (c11_raw_is_echoed env cfg st raw call).1 st' p h⟩
+    obtain ⟨h1, h2⟩ := hchain fs p hwf.1
+    exact ⟨h1, by rw [h2, hwf.2]⟩
+  · intro st' x h
+    constructor
+    · intro hv
+      obtain ⟨_, _, _, v, hs, _, _, _, he, _⟩ := c11_valid_is_validated_enhanced env cfg st st' raw call x h hv
+      exact ⟨by simp [hs], he⟩
+    · intro hv
+      obtain ⟨hs, he, _⟩ := c11_invalid_has_no_structure_and_a_trace_enhanced env cfg st st' raw call x h hv
+      exact ⟨hs, by simp [he]⟩
+
+example : ∃ st' p, (fold toyEnv (Cfg.new []) Stats.zero rawProse []).res = .ok (st', p) ∧
+    (p.map fun _ => .raise (.other 3)).valid = false ∧ (p.map fun _ => .raise (.other 3)).struct = none ∧
+    (p.map fun s => .ok (s + 1)).struct = some 8 := ⟨_, _, rfl, rfl, rfl, rfl⟩
 
 /-! ## Chaperone instances do not share configuration -/
 
@@ -478,6 +541,8 @@ def toyEnvL : Env Nat Nat (Nat × Conv) where
   sub _ t := .ok t
   validate d := if d = 6 then .ok 7 else .raise .validation
   coerce := coerceModel toyC
+  patterns := patternIds
+  repairs := repairIds
 
 
 /-- `_coerce_types_tracked`, for every behaviour of the Python primitives it uses (`isinstance`, `dict()`,
